@@ -18,6 +18,8 @@ def dispatch (c : J) : Res :=
   | "event" => handleEvent c
   | "informer" => handleInformer c
   | "meta" => handleMeta c
+  -- a run of concurrent workers under the race detector (a detected race fails the harness run itself)
+  | "race" => judge (tag { sig := c.render } "race-run") "C17" (check (c.getInt "leaked" == 0) "subscriptions leaked by concurrent first syncs")
   | k => { agree := false, where_ := s!"unknown kind {k}" }
 
 partial def loop (h : IO.FS.Stream) (out : IO.FS.Stream) : IO Unit := do
